@@ -537,7 +537,7 @@ mutual
           show ("subcircuit_block" = "loop") = False from by decide,
           show ("subcircuit_block" = "sequential_block" ∨ "subcircuit_block" = "parallel_block") = False from by decide,
           if_false, if_true, Bool.and_eq_true]
-        exact ⟨OutT_not_str ((letVal_typed it ht.1).2 c hc), hkids⟩
+        exact ⟨OutT_not_str ((letVal_typed it (CntIn_InT ht.1)).2 c hc), hkids⟩
       | false =>
         simp only [Bool.false_eq_true, if_false, pure, Except.pure] at h
         cases h
@@ -556,7 +556,7 @@ mutual
       cases h
       unfold isLStmt
       simp only [show ("loop" = "gate") = False from by decide, if_false, if_true, Bool.and_eq_true]
-      exact ⟨OutT_not_str ((letVal_typed c ht.1).2 c' hc'), letStmt_shape b b' ht.2 hb'⟩
+      exact ⟨OutT_not_str ((letVal_typed c (CntIn_InT ht.1)).2 c' hc'), letStmt_shape b b' ht.2 hb'⟩
   theorem letStmts_shape {ov : List (String × Num)} : ∀ (l : List Stmt) (xs : List BSx), StmtsIn l →
       visitStmts (letVal ov false) (letVal ov false) l = .ok xs → isLStmts xs = true
     | [], xs, _, h => by simp only [visitStmts, pure, Except.pure] at h; cases h; rfl
